@@ -1,18 +1,393 @@
-import PPLV.WR.ReduceOct
+import PPLV.WR.ReduceProofsCodeMain
+import PPLV.WR.ReduceProofsMathStrong
+import PPLV.WR.ReduceProofsMathLCon
+import PPLV.WR.ReduceProofsGlue
+import PPLV.WR.ReduceProofsCons
+import PPLV.WR.ReduceProofsUB
+import PPLV.WR.ReduceOctProofsPreserveMain
+import PPLV.WR.ReduceOctProofsAffDim
+import PPLV.WR.ReduceUBOctProofs
+import PPLV.WR.ReduceOctClosedB
 /-!
-# C04 stage 2 — reduction (work in progress: statements are being filled in)
+# C04 stage 2 — shortest-path reduction of `BD_Shape`, strong reduction of `Octagonal_Shape`, the exact-join tests
+
+Statements about the code-shaped models `PPLV/WR/Reduce.lean`, `PPLV/WR/ReduceOct.lean` (transliterations of
+`BD_Shape_templates.hh` l. 979–1027, 2072–2168, 331, 6508 and `Octagonal_Shape_templates.hh` l. 2949–3217), for
+every size and every non-empty closed matrix over exact rationals with `+∞`.  `c.IsClosed` is what
+`shortest_path_closure_assign` leaves (`bds_closure_closed`).  For octagons the hypothesis is `c.IsStronglyClosed`
+(triangle inequality and strong coherence of the full view); that `strong_closure_assign` establishes it is not proved
+in `PPLV/WR/ClosureProofsOct.lean` — the driver evaluates the executable test `isStronglyClosedB`, equivalent to it
+(`oct_closed_test`), on every journalled matrix.  Exact arithmetic only: for an inexact `T` the pairing of the
+non-singular leaders (`oct_leaders_spec`, last clause) can fail and the code reads out of bounds (open finding KF-C03-61).  The models are tied to the library by exact replay
+(`harness/c04_reduce.cc`, `Driver/WRR.lean`, `checks/c04_reduce.py`).
 -/
+set_option linter.unusedVariables false
 namespace C04
 open PPLV.WR
 open PPLV.WR.ExtRat (fin pinf)
 
-/-- `x₀ = 1`, `x₁ - x₀ ≤ 2`, `x₁ ≤ 3` (redundant sum) -/
-def exR : Mat := Mat.ofLists
-  [[pinf, fin 1, fin 3],
-   [fin (-1), pinf, fin 2],
-   [pinf, pinf, pinf]]
+/-! ## bounded-difference shapes -/
 
-theorem exR_red : (bdsShortestPathReduction upId 2 exR).map (BMat.toLists 3 (fun _ => 3)) =
-    some [[true, false, false], [false, true, true], [true, true, true]] := by decide +kernel
+/-- The hypothesis of the theorems below is what the closure kernel establishes: with exact arithmetic and a
+silent emptiness test, `shortest_path_closure_assign` leaves a closed matrix. -/
+theorem bds_closure_closed {n : ℕ} (m : DBM n) (hne : DBM.closureEmpty upId m = false) :
+    (DBM.closure upId m).IsClosed :=
+  DBM.closure_isClosed m hne
+
+/-- **`compute_predecessors` / `compute_leaders` / `compute_leader_indices` compute the zero-equivalence classes**
+(`i ~ j` iff `i = j` or `dbm[i][j] + dbm[j][i] = 0`): `~` is an equivalence relation on the indices `≤ n`;
+`predecessor[i]` is the greatest smaller class-mate of `i` (or `i`), `leaders[i]` the least element of the class of
+`i`; two indices have the same leader iff they are equivalent; `i` is its own predecessor iff it is its own
+leader; the vector of leader indices is the increasing list of these indices. -/
+theorem leaders_spec {n : ℕ} (c : DBM n) (hc : c.IsClosed) :
+    (∀ i j k, i ≤ n → j ≤ n → k ≤ n → ZEq c.e i j → ZEq c.e j k → ZEq c.e i k) ∧
+    IsPredMap n c.e (bdsComputePredecessors (n+1) c.e) ∧
+    IsLeaderMap n c.e (bdsComputeLeaders (n+1) c.e) ∧
+    (∀ i j, i ≤ n → j ≤ n →
+      (bdsComputeLeaders (n+1) c.e i = bdsComputeLeaders (n+1) c.e j ↔ ZEq c.e i j)) ∧
+    (∀ i, i ≤ n → (bdsComputePredecessors (n+1) c.e i = i ↔ bdsComputeLeaders (n+1) c.e i = i)) ∧
+    computeLeaderIndices (n+1) (bdsComputePredecessors (n+1) c.e) =
+      (List.range (n+1)).filter (fun i => bdsComputeLeaders (n+1) c.e i == i) := by
+  refine ⟨fun i j k hi hj hk => ZEq.trans hc hi hj hk, bdsComputePredecessors_spec c, bdsComputeLeaders_spec c hc,
+    bdsLeaders_eq_iff c hc, bdsPred_self_iff_leader c hc, ?_⟩
+  rw [computeLeaderIndices_eq]
+  apply List.filter_congr
+  intro i hi
+  have hin : i ≤ n := by have := List.mem_range.1 hi; omega
+  have h := bdsPred_self_iff_leader c hc i hin
+  by_cases h0 : i = 0
+  · subst h0
+    have hp : bdsComputePredecessors (n+1) c.e 0 = 0 := bdsPred_zero _ _
+    have hl := h.1 hp
+    simp [hl]
+  · rw [Bool.eq_iff_iff]
+    simp only [Bool.or_eq_true, beq_iff_eq, h0, false_or]
+    exact h
+
+/-- the two `while (true)` walks of Step 3 never run out of the fuel of the model: the model function is total. -/
+theorem bds_reduction_total {n : ℕ} (c : DBM n) : ∃ red, bdsShortestPathReduction upId n c.e = some red :=
+  PPLV.WR.bds_reduction_total c
+
+/-- **What `shortest_path_reduction_assign` leaves in `redundancy_dbm`.**  For `i, j ≤ n` the bit `(i, j)` is
+cleared (the constraint is kept) exactly when
+(A) `i`, `j` are leaders and no leader `k` has `dbm[i][k] + dbm[k][j] ≤ dbm[i][j]` (read on the stored matrix, whose
+    diagonal is `+∞`: so `i ≠ j`, the entry is finite, and `k` ranges over the *other* leaders), or
+(B) `i = predecessor[j] < j` (the chain through a class, upwards), or
+(C) `i` is the greatest element of a non-singleton class and `j < i` its leader (the edge closing the 0-cycle). -/
+theorem bds_reduction_spec {n : ℕ} (c : DBM n) (hc : c.IsClosed) (red : BMat)
+    (h : bdsShortestPathReduction upId n c.e = some red) :
+    IsReduction n c.e (bdsComputeLeaders (n+1) c.e) (bdsComputePredecessors (n+1) c.e) red :=
+  bdsShortestPathReduction_spec c hc red h
+
+/-- `affine_dimension()` returns the number of zero-equivalence classes that do not contain the zero variable's
+index … counted as the code counts: the indices `1..n` that are leaders. -/
+theorem affine_dimension_count {n : ℕ} (c : DBM n) (hc : c.IsClosed) :
+    bdsAffineDimension n c.e = leaderCount n (bdsComputeLeaders (n+1) c.e) := by
+  rw [bdsAffineDimension_eq_count]
+  exact leaderCount_congr n _ _ (fun i hi => bdsPred_self_iff_leader c hc i hi)
+
+/-! ### non-vacuity: `x₀ = 1`, `x₁ - x₀ ≤ 2`, `x₁ ≤ 3`, `x₂ - x₁ ≤ 0`, `x₁ - x₂ ≤ 0` -/
+
+/-- not closed yet: the closure adds e.g. `x₂ ≤ 3` -/
+def exR0 : DBM 3 := DBM.ofLists 3
+  [[pinf, fin 1, fin 3, pinf],
+   [fin (-1), pinf, fin 2, pinf],
+   [pinf, pinf, pinf, fin 0],
+   [pinf, pinf, fin 0, pinf]]
+
+def exR : DBM 3 := DBM.closure upId exR0
+
+theorem exR_closed : exR.IsClosed := bds_closure_closed exR0 (by decide +kernel)
+
+-- classes {0, 1} (the zero variable and x₀ = 1) and {2, 3} (x₁ = x₂): leaders 0 and 2, affine dimension 1
+example : (bdsComputeLeaders 4 exR.e).toList 4 = [0, 0, 2, 2] := by decide +kernel
+example : (bdsComputePredecessors 4 exR.e).toList 4 = [0, 0, 2, 2] := by decide +kernel
+example : computeLeaderIndices 4 (bdsComputePredecessors 4 exR.e) = [0, 2] := by decide +kernel
+example : bdsAffineDimension 3 exR.e = 1 := by decide +kernel
+example : ZEq exR.e 2 3 := by decide +kernel
+example : ¬ ZEq exR.e 0 2 := by decide +kernel
+example : IsLeaderMap 3 exR.e (bdsComputeLeaders 4 exR.e) := (leaders_spec exR exR_closed).2.2.1
+-- the kept entries: the 0-cycles 0→1→0 and 2→3→2, and among the leaders only `x₁ ≤ 3` (0,2)
+example : (bdsShortestPathReduction upId 3 exR.e).map (BMat.toLists 4 (fun _ => 4)) =
+    some [[true, false, false, true], [false, true, true, true], [true, true, true, false], [true, true, false, true]] := by
+  decide +kernel
+example : ∃ red, bdsShortestPathReduction upId 3 exR.e = some red ∧
+    IsReduction 3 exR.e (bdsComputeLeaders 4 exR.e) (bdsComputePredecessors 4 exR.e) red := by
+  obtain ⟨red, h⟩ := bds_reduction_total exR
+  exact ⟨red, h, bds_reduction_spec exR exR_closed red h⟩
+example : leaderCount 3 (bdsComputeLeaders 4 exR.e) = 1 := by
+  rw [← affine_dimension_count exR exR_closed]; decide +kernel
+
+/-! ### the conclusions about the set denoted -/
+
+/-- **The reduction preserves the shape**: the constraints whose bit is cleared in `redundancy_dbm` denote the same
+set as the closed matrix. -/
+theorem bds_reduction_preserves {n : ℕ} (c : DBM n) (hc : c.IsClosed) (red : BMat)
+    (h : bdsShortestPathReduction upId n c.e = some red) : DBM.γ (c.reduced red) = DBM.γ c :=
+  bds_reduced_preserves c hc _ _ (bdsComputeLeaders_spec c hc) (bdsComputePredecessors_spec c) red
+    (bds_reduction_spec c hc red h)
+
+/-- **Nothing needed was dropped**: closing the kept constraints (`shortest_path_closure_assign`, exact arithmetic)
+does not report emptiness and gives back the closed matrix, entry by entry. -/
+theorem bds_reduction_recloses {n : ℕ} (c : DBM n) (hc : c.IsClosed) (red : BMat)
+    (h : bdsShortestPathReduction upId n c.e = some red) :
+    DBM.closureEmpty upId (c.reduced red) = false ∧
+    ∀ i j, i ≤ n → j ≤ n → (DBM.closure upId (c.reduced red)).e i j = c.e i j :=
+  bds_reduced_recloses c hc _ _ (bdsComputeLeaders_spec c hc) (bdsComputePredecessors_spec c) red
+    (bds_reduction_spec c hc red h)
+
+/-- **Irredundancy among leaders**, as the algorithm guarantees it literally: a kept entry between two leaders joins
+distinct leaders, is finite, and is strictly below the sum through every third leader; and semantically: it cannot be
+dropped — some point violates `x_j - x_i ≤ dbm[i][j]` while satisfying every other kept constraint. -/
+theorem bds_reduction_irredundant {n : ℕ} (c : DBM n) (hc : c.IsClosed) (red : BMat)
+    (h : bdsShortestPathReduction upId n c.e = some red) (i j : ℕ) (hi : i ≤ n) (hj : j ≤ n)
+    (hk : red i j = false) (hli : bdsComputeLeaders (n+1) c.e i = i) (hlj : bdsComputeLeaders (n+1) c.e j = j) :
+    (i ≠ j ∧ (∃ q, c.e i j = fin q) ∧
+      ∀ k, k ≤ n → bdsComputeLeaders (n+1) c.e k = k → k ≠ i → k ≠ j → ¬ (eadd (c.e i k) (c.e k j) ≤ c.e i j)) ∧
+    ∃ x, x ∉ DBM.γ c ∧ ∀ a b, a ≤ n → b ≤ n → ¬ (a = i ∧ b = j) →
+      fin (DBM.val x b - DBM.val x a) ≤ (c.reduced red).e a b :=
+  ⟨bds_reduced_irredundant c hc _ _ (bdsComputeLeaders_spec c hc) (bdsComputePredecessors_spec c) red
+      (bds_reduction_spec c hc red h) i j hi hj hk hli hlj,
+   bds_reduced_irredundant_strong c hc _ _ (bdsComputeLeaders_spec c hc) (bdsComputePredecessors_spec c) red
+      (bds_reduction_spec c hc red h) i j hi hj hk hli hlj⟩
+
+/-- **The chain of equalities**: inside a zero-equivalence class of size `s ≥ 2` every index has exactly one kept
+outgoing and exactly one kept incoming entry (one 0-cycle through the class: `s` kept entries), and a kept entry
+between two different classes joins two leaders. -/
+theorem bds_reduction_chain {n : ℕ} (c : DBM n) (hc : c.IsClosed) (red : BMat)
+    (h : bdsShortestPathReduction upId n c.e = some red) :
+    (∀ i, i ≤ n → (∃ j, j ≤ n ∧ j ≠ i ∧ ZEq c.e i j) →
+      (∃! j, j ≤ n ∧ j ≠ i ∧ ZEq c.e i j ∧ red i j = false) ∧
+      (∃! j, j ≤ n ∧ j ≠ i ∧ ZEq c.e i j ∧ red j i = false)) ∧
+    (∀ i j, i ≤ n → j ≤ n → red i j = false → ¬ ZEq c.e i j →
+      bdsComputeLeaders (n+1) c.e i = i ∧ bdsComputeLeaders (n+1) c.e j = j) := by
+  have hl := bdsComputeLeaders_spec c hc
+  have hp := bdsComputePredecessors_spec c
+  have hr := bds_reduction_spec c hc red h
+  exact ⟨fun i hi hns => ⟨bds_reduced_chain_out c hc _ _ hl hp red hr i hi hns,
+      bds_reduced_chain_in c hc _ _ hl hp red hr i hi hns⟩,
+    fun i j hi hj hk hne => bds_reduced_cross_class c hc _ _ hl hp red hr i j hi hj hk hne⟩
+
+/-- **`affine_dimension()` is the affine dimension of the shape.**  With `d` the returned number (= the number of
+leaders among the indices `1..n`, `affine_dimension_count`): every non-leader coordinate is an affine function of
+its leader on the whole shape (`n - d` independent equalities), and some point of the shape can be moved freely by
+a small amount along each of the `d` classes not containing the zero variable, simultaneously (`d` independent
+directions inside the shape). -/
+theorem affine_dimension_spec {n : ℕ} (c : DBM n) (hc : c.IsClosed) :
+    bdsAffineDimension n c.e = leaderCount n (bdsComputeLeaders (n+1) c.e) ∧
+    (∀ x ∈ DBM.γ c, ∀ i, i ≤ n → bdsComputeLeaders (n+1) c.e i ≠ i →
+      fin (DBM.val x i - DBM.val x (bdsComputeLeaders (n+1) c.e i)) = c.e (bdsComputeLeaders (n+1) c.e i) i) ∧
+    (∃ x0 ∈ DBM.γ c, ∃ δ : ℚ, 0 < δ ∧ ∀ t : ℕ → ℚ, (∀ l, |t l| ≤ δ) →
+      (fun k => x0 k + if bdsComputeLeaders (n+1) c.e (k+1) = bdsComputeLeaders (n+1) c.e 0 then 0
+                       else t (bdsComputeLeaders (n+1) c.e (k+1))) ∈ DBM.γ c) := by
+  obtain ⟨red, h⟩ := bds_reduction_total c
+  have g := bds_affine_dimension_geom_simul c hc _ _ (bdsComputeLeaders_spec c hc) (bdsComputePredecessors_spec c) red
+    (bds_reduction_spec c hc red h)
+  exact ⟨affine_dimension_count c hc, g.1, g.2⟩
+
+-- non-vacuity on `exR`: all hypotheses hold, the conclusions are about a non-trivial reduction
+example : ∃ red, bdsShortestPathReduction upId 3 exR.e = some red ∧ DBM.γ (exR.reduced red) = DBM.γ exR ∧
+    (DBM.closure upId (exR.reduced red)).e 0 3 = exR.e 0 3 := by
+  obtain ⟨red, h⟩ := bds_reduction_total exR
+  exact ⟨red, h, bds_reduction_preserves exR exR_closed red h,
+    (bds_reduction_recloses exR exR_closed red h).2 0 3 (by norm_num) (by norm_num)⟩
+-- the dropped entry `x₂ ≤ 3` (0,3) is finite in the closed matrix and comes back by closing the kept ones
+example : exR.e 0 3 = fin 3 := by decide +kernel
+-- the kept leader entry (0,2) `x₁ ≤ 3` cannot be dropped
+example : ∃ red, bdsShortestPathReduction upId 3 exR.e = some red ∧ ∃ x, x ∉ DBM.γ exR ∧
+    ∀ a b, a ≤ 3 → b ≤ 3 → ¬ (a = 0 ∧ b = 2) → fin (DBM.val x b - DBM.val x a) ≤ (exR.reduced red).e a b := by
+  obtain ⟨red, h⟩ := bds_reduction_total exR
+  have hk : red 0 2 = false := by
+    have : (bdsShortestPathReduction upId 3 exR.e).map (fun r => r 0 2) = some false := by decide +kernel
+    rw [h] at this; simpa using this
+  exact ⟨red, h, (bds_reduction_irredundant exR exR_closed red h 0 2 (by norm_num) (by norm_num) hk
+    (by decide +kernel) (by decide +kernel)).2⟩
+-- index 3 (x₂) lies in the class {2, 3}: exactly one kept outgoing entry inside the class
+example : ∃ red, bdsShortestPathReduction upId 3 exR.e = some red ∧
+    ∃! j, j ≤ 3 ∧ j ≠ 3 ∧ ZEq exR.e 3 j ∧ red 3 j = false := by
+  obtain ⟨red, h⟩ := bds_reduction_total exR
+  exact ⟨red, h, ((bds_reduction_chain exR exR_closed red h).1 3 (by norm_num) ⟨2, by norm_num, by norm_num, by decide +kernel⟩).1⟩
+example : bdsAffineDimension 3 exR.e = leaderCount 3 (bdsComputeLeaders 4 exR.e) := (affine_dimension_spec exR exR_closed).1
+
+/-! ### the readers of `redundancy_dbm` -/
+
+/-- **`minimized_constraints()` denotes the shape**: the list the code emits from the closed matrix and the fresh
+`redundancy_dbm` — one equality from every non-leader to its leader, the kept unary and binary inequalities among
+the leaders — has exactly the points of the closed matrix.  (`LCon.Sat`: `Σ coeffs_k·x_k (== | <=) rhs` with the
+numerators and denominators `numer_denom` returns.) -/
+theorem bds_minimized_constraints_sem {n : ℕ} (c : DBM n) (hc : c.IsClosed) (red : BMat)
+    (h : bdsShortestPathReduction upId n c.e = some red) :
+    {x : ℕ → ℚ | ∀ lc ∈ bdsMinimizedConstraints n c.e red, lc.Sat x} = DBM.γ c :=
+  bds_minimized_constraints_sem_aux c hc red h
+
+/-- … and it contains exactly `n - affine_dimension()` equalities (one per non-leader among the indices `1..n`), for
+whatever bits `redundancy_dbm` holds. -/
+theorem bds_minimized_constraints_equalities {n : ℕ} (c : DBM n) (hc : c.IsClosed) (red : BMat) :
+    ((bdsMinimizedConstraints n c.e red).filter (·.isEq)).length + bdsAffineDimension n c.e = n :=
+  PPLV.WR.bds_minimized_constraints_equalities c hc red
+
+/-- **`constraints()` of a shape not marked reduced denotes the matrix**, closed or not; for a shape marked reduced
+`constraints()` is `minimized_constraints()` (`bdsConstraints`). -/
+theorem bds_constraints_sem {n : ℕ} (m : DBM n) :
+    {x : ℕ → ℚ | ∀ lc ∈ bdsConstraints n m.e false (BMat.const true), lc.Sat x} = DBM.γ m :=
+  bds_constraints_all_sem m
+
+-- on `exR` (`x₀ = 1`, `x₁ = x₂ ≤ 3`): two equalities and the single inequality `x₁ ≤ 3`
+example : (bdsShortestPathReduction upId 3 exR.e).map (bdsMinimizedConstraints 3 exR.e) =
+    some [⟨true, [1, 0, 0], 1⟩, ⟨true, [0, 1, -1], 0⟩, ⟨false, [0, 1, 0], 3⟩] := by decide +kernel
+example : ∃ red, bdsShortestPathReduction upId 3 exR.e = some red ∧
+    {x : ℕ → ℚ | ∀ lc ∈ bdsMinimizedConstraints 3 exR.e red, lc.Sat x} = DBM.γ exR := by
+  obtain ⟨red, h⟩ := bds_reduction_total exR
+  exact ⟨red, h, bds_minimized_constraints_sem exR exR_closed red h⟩
+-- `constraints()` of the not yet closed `exR0`: `x₀ = 1`, `x₁ ≤ 3`, `x₁ - x₀ ≤ 2`, `x₂ - x₁ = 0`
+example : bdsConstraints 3 exR0.e false (BMat.const true) =
+    [⟨true, [1, 0, 0], 1⟩, ⟨false, [0, 1, 0], 3⟩, ⟨false, [-1, 1, 0], 2⟩, ⟨true, [0, -1, 1], 0⟩] := by decide +kernel
+
+/-! ### `upper_bound_assign_if_exact` (`BHZ09_upper_bound_assign_if_exact<false>`) -/
+
+/-- **Soundness of the answer `true`**: for non-empty closed `x`, `y` with their fresh `redundancy_dbm`, when the four
+nested loops of the test find no `(i, j, k, ℓ)` with `x_ij < y_ij`, `y_kℓ < x_kℓ` (both kept) and
+`x_ij + y_kℓ < ub_iℓ + ub_kj`, the pointwise maximum `DBM.join x y` (what `upper_bound_assign` stores) denotes
+exactly the union: the union is convex and is a BD shape.
+Completeness (answer `false` ⇒ the union is not the join) is NOT proved here; on every journalled pair the driver
+decides both polarities with K1 (`subsetUnion`, proved sound and complete: `C04.ub_if_exact_spec`). -/
+theorem upper_bound_if_exact_sound {n : ℕ} (x y : DBM n) (hx : x.IsClosed) (hy : y.IsClosed) (xr yr : BMat)
+    (hxr : bdsShortestPathReduction upId n x.e = some xr) (hyr : bdsShortestPathReduction upId n y.e = some yr)
+    (ht : bdsBHZ09 upId n x.e y.e xr yr = true) :
+    DBM.γ (DBM.join x y) = DBM.γ x ∪ DBM.γ y :=
+  bdsBHZ09_sound x y hx hy xr yr hxr hyr ht
+
+/-- `0 ≤ x₀ ≤ 1` and `1 ≤ x₀ ≤ 2`: adjacent, the test answers `true`; `2 ≤ x₀ ≤ 3` instead: a gap, `false` -/
+def exU1 : DBM 1 := DBM.closure upId (DBM.ofLists 1 [[pinf, fin 1], [fin 0, pinf]])
+def exU2 : DBM 1 := DBM.closure upId (DBM.ofLists 1 [[pinf, fin 2], [fin (-1), pinf]])
+def exU3 : DBM 1 := DBM.closure upId (DBM.ofLists 1 [[pinf, fin 3], [fin (-2), pinf]])
+
+example : DBM.γ (DBM.join exU1 exU2) = DBM.γ exU1 ∪ DBM.γ exU2 := by
+  obtain ⟨xr, hxr⟩ := bds_reduction_total exU1
+  obtain ⟨yr, hyr⟩ := bds_reduction_total exU2
+  refine upper_bound_if_exact_sound exU1 exU2 (bds_closure_closed _ (by decide +kernel))
+    (bds_closure_closed _ (by decide +kernel)) xr yr hxr hyr ?_
+  have e : (do let a ← bdsShortestPathReduction upId 1 exU1.e; let b ← bdsShortestPathReduction upId 1 exU2.e
+               pure (bdsBHZ09 upId 1 exU1.e exU2.e a b)) = some true := by decide +kernel
+  rw [hxr, hyr] at e
+  simpa using e
+example : (do let a ← bdsShortestPathReduction upId 1 exU1.e; let b ← bdsShortestPathReduction upId 1 exU3.e
+              pure (bdsBHZ09 upId 1 exU1.e exU3.e a b)) = some false := by decide +kernel
+
+/-! ## octagonal shapes -/
+
+/-- the executable test the driver runs on every journalled matrix is exactly the hypothesis of the theorems below -/
+theorem oct_closed_test {n : ℕ} (c : OctM n) : isStronglyClosedB n c.e = true ↔ c.IsStronglyClosed :=
+  isStronglyClosedB_iff c
+
+/-- **`compute_successors`, `compute_leaders` (both overloads) compute the zero-equivalence classes with the coherent
+index pairing** (`i ~ j` iff `i = j` or `m_ij + m_ji = 0` on the full view; the code tests
+`is_additive_inverse(matrix[ci][cj], matrix[i][j])` on stored cells): `~` is an equivalence relation compatible with
+`coherent_index` (classes come in coherent pairs); `leaders[i]` is the least index of the class of `i` and two
+indices have equal leaders iff they are equivalent; `successor[j]` is the next greater element of the class of `j`
+(or `j`); `no_sing_leaders` is the increasing list of the least elements of the non-singular classes (`i ≁ ci`),
+which come in pairs `2h, 2h+1` (so list position and index have the same parity, as `rs_li` assumes);
+`exist_sing_class` holds iff some `i ~ ci`, and then `sing_leader` is the least such index and is even. -/
+theorem oct_leaders_spec {n : ℕ} (c : OctM n) (hc : c.IsStronglyClosed) :
+    (∀ i j k, i < 2 * n → j < 2 * n → k < 2 * n → OZEq c.e i j → OZEq c.e j k → OZEq c.e i k) ∧
+    (∀ i j, OZEq c.e i j → OZEq c.e (cidx i) (cidx j)) ∧
+    ((∀ i, i < 2 * n → octComputeLeaders (2 * n) c.e i ≤ i ∧ OZEq c.e (octComputeLeaders (2 * n) c.e i) i ∧
+        ∀ j, j < 2 * n → OZEq c.e j i → octComputeLeaders (2 * n) c.e i ≤ j) ∧
+      (∀ i j, i < 2 * n → j < 2 * n →
+        (octComputeLeaders (2 * n) c.e i = octComputeLeaders (2 * n) c.e j ↔ OZEq c.e i j))) ∧
+    (∀ j, j < 2 * n →
+      j ≤ octComputeSuccessors (2 * n) c.e j ∧ octComputeSuccessors (2 * n) c.e j < 2 * n ∧
+      OZEq c.e (octComputeSuccessors (2 * n) c.e j) j ∧
+      (∀ t, j < t → t < octComputeSuccessors (2 * n) c.e j → ¬ OZEq c.e t j) ∧
+      (octComputeSuccessors (2 * n) c.e j = j → ∀ t, j < t → t < 2 * n → ¬ OZEq c.e t j)) ∧
+    (let lead := octComputeLeaders (2 * n) c.e
+     let L := octComputeLeaders4 (2 * n) (octComputeSuccessors (2 * n) c.e)
+     L.no_sing_leaders = (List.range (2 * n)).filter (fun i => lead i == i && !(decide (OZEq c.e i (cidx i)))) ∧
+     (L.exist_sing_class = true ↔ ∃ i, i < 2 * n ∧ OZEq c.e i (cidx i)) ∧
+     (L.exist_sing_class = true → L.sing_leader < 2 * n ∧ OZEq c.e L.sing_leader (cidx L.sing_leader) ∧
+        (∀ i, i < 2 * n → OZEq c.e i (cidx i) → L.sing_leader ≤ i) ∧ L.sing_leader % 2 = 0) ∧
+     (∀ h, 2 * h ∈ L.no_sing_leaders ↔ 2 * h + 1 ∈ L.no_sing_leaders)) :=
+  ⟨fun i j k hi hj hk => OZEq.trans c hc hi hj hk, fun i j => OZEq.cidx, PPLV.WR.oct_leaders_spec c hc,
+    fun j hj => oct_successors_spec c j hj, oct_leaders4_spec_full c hc⟩
+
+/-- the two `while` walks of `non_redundant_matrix_entries` never run out of the fuel of the model, and
+`no_sing_leaders[lj]` is never read beyond the vector -/
+theorem oct_reduction_total {n : ℕ} (c : OctM n) (hc : c.IsStronglyClosed) :
+    ∃ nr, octNonRedundantMatrixEntries upId n c.e = some nr :=
+  PPLV.WR.oct_reduction_total c hc
+
+/-- **Strong reduction preserves the shape**: the matrix `strong_reduction_assign` leaves (every cell whose bit is not
+set in the output of `non_redundant_matrix_entries` replaced by `+∞`) denotes the same set as the strongly closed
+matrix — including the singular class (a single 0-cycle through the even indices, closed by the two unary cells) and
+the cells between the singular class and the rest, which the code never examines. -/
+theorem oct_reduction_preserves {n : ℕ} (c : OctM n) (hc : c.IsStronglyClosed) (nr : BMat)
+    (h : octNonRedundantMatrixEntries upId n c.e = some nr) : OctM.γ (c.reduced nr) = OctM.γ c :=
+  PPLV.WR.oct_reduction_preserves c hc nr h
+
+/-- `affine_dimension()` counts the variables `h` whose two indices `2h`, `2h+1` are both leaders — the number of
+coherent pairs of non-singular classes (half the length of `no_sing_leaders`). -/
+theorem oct_affine_dimension_count {n : ℕ} (c : OctM n) (hc : c.IsStronglyClosed) :
+    octAffineDimension n c.e = ((List.range n).filter fun h =>
+      octComputeLeaders (2 * n) c.e (2 * h) == 2 * h && octComputeLeaders (2 * n) c.e (2 * h + 1) == 2 * h + 1).length ∧
+    (octComputeLeaders4 (2 * n) (octComputeSuccessors (2 * n) c.e)).no_sing_leaders.length
+      = 2 * octAffineDimension n c.e :=
+  ⟨PPLV.WR.oct_affine_dimension_count c hc, oct_affine_dimension_leaders c hc⟩
+
+/-- **`Octagonal_Shape::upper_bound_assign_if_exact`, soundness of the answer `true`**: for strongly closed `x`, `y`
+with the outputs of `non_redundant_matrix_entries`, when no `(i, j, k, ℓ)` satisfies the eight conditions of the test,
+the pointwise maximum denotes exactly the union.  (Completeness is not proved; K1 decides both polarities per run.) -/
+theorem oct_upper_bound_if_exact_sound {n : ℕ} (x y : OctM n) (hx : x.IsStronglyClosed) (hy : y.IsStronglyClosed)
+    (xr yr : BMat) (hxr : octNonRedundantMatrixEntries upId n x.e = some xr)
+    (hyr : octNonRedundantMatrixEntries upId n y.e = some yr)
+    (ht : octUpperBoundIfExact upId n x.e y.e xr yr = true) :
+    OctM.γ (OctM.join x y) = OctM.γ x ∪ OctM.γ y :=
+  octUB_sound x y xr yr (oct_reduction_preserves x hx xr hxr) (oct_reduction_preserves y hy yr hyr) ht
+
+/-! ### non-vacuity: `x₀ = 1`, `x₁ ≤ 3`, `x₁ - x₀ ≤ 2` (rows `+x₀, -x₀, +x₁, -x₁`) -/
+
+def exO0 : OctM 2 := OctM.ofLists 2
+  [[pinf, fin (-2)],
+   [fin 2, pinf],
+   [pinf, pinf, pinf, pinf],
+   [pinf, fin 2, fin 6, pinf]]
+
+/-- strong closure adds `x₀ + x₁ ≤ 4` -/
+def exO : OctM 2 := OctM.strongClosure upId exO0
+
+theorem exO_closed : exO.IsStronglyClosed := (oct_closed_test exO).1 (by decide +kernel)
+
+example : exO.e 3 0 = fin 4 := by decide +kernel
+-- the singular class `{+x₀, -x₀}` with leader 0, the non-singular leaders `+x₁, -x₁`, affine dimension 1
+example : (octComputeLeaders 4 exO.e).toList 4 = [0, 0, 2, 3] := by decide +kernel
+example : (octComputeSuccessors 4 exO.e).toList 4 = [1, 1, 2, 3] := by decide +kernel
+example : octComputeLeaders4 4 (octComputeSuccessors 4 exO.e) = ⟨[2, 3], true, 0⟩ := by decide +kernel
+example : octAffineDimension 2 exO.e = 1 := by decide +kernel
+-- kept: the two unary cells of the singular class and `2·x₁ ≤ 6`; dropped: `x₀ + x₁ ≤ 4`, `x₁ - x₀ ≤ 2` (cells between
+-- the singular class and the rest).  The cell (2,3) is flagged although it holds `+∞`: with a single pair of
+-- non-singular leaders the loop over `k` is empty and `j = ci` skips the coherence test (harmless quirk of the code).
+example : (octNonRedundantMatrixEntries upId 2 exO.e).map (BMat.toLists 4 rowSize) =
+    some [[false, true], [true, false], [false, false, false, true], [false, false, true, false]] := by decide +kernel
+example : exO.e 2 3 = pinf := by decide +kernel
+example : (octMinimizedConstraints upId 2 exO.e) = some [⟨true, [2, 0], 2⟩, ⟨false, [0, 2], 6⟩] := by decide +kernel
+example : ∃ nr, octNonRedundantMatrixEntries upId 2 exO.e = some nr ∧ OctM.γ (exO.reduced nr) = OctM.γ exO := by
+  obtain ⟨nr, h⟩ := oct_reduction_total exO exO_closed
+  exact ⟨nr, h, oct_reduction_preserves exO exO_closed nr h⟩
+example : (octComputeLeaders4 4 (octComputeSuccessors 4 exO.e)).no_sing_leaders.length = 2 * octAffineDimension 2 exO.e :=
+  (oct_affine_dimension_count exO exO_closed).2
+example : OZEq exO.e 0 1 ∧ ¬ OZEq exO.e 2 3 := by decide +kernel
+
+/-- `x₀ ≤ 1` joined with `1 ≤ x₀ ≤ 2` … as octagons of dimension 1: `0 ≤ x₀ ≤ 1` and `1 ≤ x₀ ≤ 2` -/
+def exOU1 : OctM 1 := OctM.strongClosure upId (OctM.ofLists 1 [[pinf, fin 0], [fin 2, pinf]])
+def exOU2 : OctM 1 := OctM.strongClosure upId (OctM.ofLists 1 [[pinf, fin (-2)], [fin 4, pinf]])
+
+example : OctM.γ (OctM.join exOU1 exOU2) = OctM.γ exOU1 ∪ OctM.γ exOU2 := by
+  obtain ⟨xr, hxr⟩ := oct_reduction_total exOU1 ((oct_closed_test exOU1).1 (by decide +kernel))
+  obtain ⟨yr, hyr⟩ := oct_reduction_total exOU2 ((oct_closed_test exOU2).1 (by decide +kernel))
+  refine oct_upper_bound_if_exact_sound exOU1 exOU2 ((oct_closed_test exOU1).1 (by decide +kernel))
+    ((oct_closed_test exOU2).1 (by decide +kernel)) xr yr hxr hyr ?_
+  have e : (do let a ← octNonRedundantMatrixEntries upId 1 exOU1.e; let b ← octNonRedundantMatrixEntries upId 1 exOU2.e
+               pure (octUpperBoundIfExact upId 1 exOU1.e exOU2.e a b)) = some true := by decide +kernel
+  rw [hxr, hyr] at e
+  simpa using e
 
 end C04
